@@ -251,9 +251,9 @@ func runC04Script(c *fw.Ctx, id string, sc c04Script) {
 	client := c04Client(cl, sc.Queue)
 	defer func() { within(3*time.Second, client.Close) }()
 	var mu sync.Mutex
-	transient := map[string]int{}   // region name -> remaining injected exceptions
+	transient := map[string]int{} // region name -> remaining injected exceptions
 	transientClass := map[string]string{}
-	appExc := map[string]bool{}     // op ids that get an application exception
+	appExc := map[string]bool{} // op ids that get an application exception
 	cl.OnAction = func(req *sim.Request, a *sim.Action) *sim.Exc {
 		mu.Lock()
 		defer mu.Unlock()
@@ -276,11 +276,11 @@ func runC04Script(c *fw.Ctx, id string, sc c04Script) {
 	opn := 0
 	type outcome struct {
 		opid, kind, table string
-		row         []byte
-		err         error
-		res         *hrpc.Result
-		wantApp     bool
-		returned    bool
+		row               []byte
+		err               error
+		res               *hrpc.Result
+		wantApp           bool
+		returned          bool
 	}
 	var outs []*outcome
 	var wg sync.WaitGroup
